@@ -19,7 +19,7 @@ import random
 
 import front
 
-LEAN_MODULE = "PydjinniModel.Props.C16"
+LEAN_MODULE = "PydjinniModel.Props.C16Order"
 THEOREMS = [
     "Pydjinni.Front.candidates_order",
     "Pydjinni.Front.findFile_first",
@@ -32,6 +32,14 @@ THEOREMS = [
     "Pydjinni.Front.remaining_add",
     "Pydjinni.Front.parseOne_fuel_sufficient",
     "Pydjinni.Front.front_terminates",
+    "Pydjinni.Front.parseOne_order",
+    "Pydjinni.Front.parseOne_load_order",
+    "Pydjinni.Front.parseOne_finish_order",
+    "Pydjinni.Front.programInOrder_eq",
+    "Pydjinni.Front.front_final_registry",
+    "Pydjinni.Front.front_registry_is_regUpTo",
+    "Pydjinni.Front.front_finishes_all",
+    "Pydjinni.Front.rootOrder_nodup",
 ]
 LEVEL = "proof"
 
